@@ -4,6 +4,7 @@ import IpaVerif.Model.QueueSpec
 import IpaVerif.Model.OrderingSender
 import IpaVerif.Model.SenderSpec
 import IpaVerif.Model.UnorderedReceiver
+import IpaVerif.Driver.C14Atomic
 /-! Line-protocol handlers for property C14 (model side). Import-free.
 
 `c14.circ <cap> <ws> <rs> <op,op,…>` with ops `w<hex>` (next().write), `t` (take), `c` (close);
@@ -267,7 +268,7 @@ def handle (toks : List String) : Option String :=
       let some cap := cap.toNat? | return "bad-request"
       let some ops := Recv.parseOps ops | return "bad-request"
       return Recv.model sz cap ops
-  | _ => none
+  | _ => C14Atomic.handle toks
 
 def oracle (toks : List String) (impl : String) : Option String :=
   match toks with
@@ -294,6 +295,6 @@ def oracle (toks : List String) (impl : String) : Option String :=
       match Recv.check sz cap ops impl with
       | none => return "holds"
       | some why => return s!"fails {why}"
-  | _ => none
+  | _ => C14Atomic.oracle toks impl
 
 end IpaVerif.Driver.C14
